@@ -700,8 +700,13 @@ def monitor_mutation(rng, pairs, viols, counts):
         for fname, mk in (("none", lambda: None), ("diff", formatting.DiffFormatter), ("old", formatting.XmlDiffFormatter)):
             L, R = X(lx), X(rx)
             b = (snap(L), snap(R))
-            res = call(lambda: main.diff_trees(L, R, diff_options=opts, formatter=mk()))
+            mine = dict(opts, F=0.62) if fname == "none" else dict(opts)     # the caller's own options dict
+            before_opts = json.dumps(mine, sort_keys=True, default=list)
+            res = call(lambda: main.diff_trees(L, R, diff_options=mine, formatter=mk()))
             counts["diff_trees"] += 1
+            if json.dumps(mine, sort_keys=True, default=list) != before_opts:
+                viols.append({"what": "main.diff_trees(formatter=%s) changed the caller's diff_options dict: %s -> %r" % (fname, before_opts, mine),
+                              "replay": {"kind": "mutation", "call": "diff_trees", "formatter": fname, "left": lx, "right": rx, "opts": opts}})
             if (snap(L), snap(R)) != b:
                 viols.append({"what": "main.diff_trees(formatter=%s) modified an input tree" % fname,
                               "replay": {"kind": "mutation", "call": "diff_trees", "formatter": fname, "left": lx, "right": rx, "opts": opts}})
@@ -918,6 +923,10 @@ def monitor_reuse_objects(rng, pairs, viols, counts):
 
 
 ATTR_HEAVY = [
+    # names that differ only in leading zeros / digit runs / case (whatever orders them "naturally" must still be total)
+    ('<t><r col1="a" col01="b" col001="c" r7c1="d" r07c1="e" A="1" a="2"/></t>',
+     '<t><r col2="a" col02="b" col002="c" r7c2="d" r07c2="e" B="1" b="2"/></t>'),
+    ('<t><r col1="a" col01="b" col10="c" col9="d"/></t>', '<t><r col1="x" col01="y" col10="z" col9="w"/></t>'),
     ('<a k1="1" k2="2" k3="3" k4="4" k5="5" k6="6" k7="7" k8="8"/>',
      '<a k9="1" k2="22" k3="3" kA="4" kB="5" k6="66" kC="7" kD="x" kE="y" kF="8"/>'),
     ('<a><b zeta="1" alpha="2" mid="3" omega="4" beta="5"/><b id1="q" id2="w" id3="e"/></a>',
@@ -1189,7 +1198,7 @@ def main(run):
     monitor_mutation(rng, pairs, viols, counts)
     run.log("monitor (inputs untouched): %d diff_trees, %d Differ API, %d patch_tree, %d format calls; %d violations so far"
             % (counts["diff_trees"], counts["differ_api"], counts["patch_tree"], counts["format"], len(viols)))
-    monitor_history(run, rng, pairs[: (40 if quick else 800)] + pairs[-17:], viols, counts, "history")
+    monitor_history(run, rng, pairs[: (40 if quick else 800)] + pairs[-19:], viols, counts, "history")
     # labelled stream: namespaces declared below the root (the recorded finding lives here)
     nonroot = [(a, b, {}) for a, b in NONROOT_NS]
     monitor_history(run, rng, nonroot, viols, counts, "nonroot_stream")
@@ -1198,7 +1207,7 @@ def main(run):
     monitor_reuse_objects(rng, pairs[: (50 if quick else 600)], viols, counts)
     # namespace-introducing pairs, in order, in one process: base / adversarial diffs / again
     monitor_history(run, rng, [(a, b, {}) for a, b in NS_INTRO], viols, counts, "history")
-    corpus = [[a, b, o] for a, b, o in (pairs[: (30 if quick else 400)] + pairs[-17:])] + [[a, b, {}] for a, b in NS_INTRO]
+    corpus = [[a, b, o] for a, b, o in (pairs[: (30 if quick else 400)] + pairs[-19:])] + [[a, b, {}] for a, b in NS_INTRO]
     monitor_processes(run, rng, corpus, viols, counts)
     run.log("monitor (history): %d in-process re-computations after adversarial diffs (%d differed), non-root-namespace stream %d (%d differed), "
             "%d XMLFormatter / %d Differ reuse comparisons; %d subprocess runs, %d comparisons (%d differed); known-finding stream: %d differences"
